@@ -11,12 +11,13 @@
 
 using namespace sim;
 
-enum { OP_ALLOC = 0, OP_FREE, OP_DEALLOC, OP_REALLOC, OP_REALLOC_NULL, OP_REALLOC_ZERO, OP_FREE_NULL, OP_GETSIZE, OP_VERIFY, OP_GIVE, OP_TAKE, OP_PAGES, OP_CHURN, OP_N };
-static const char *op_names[OP_N] = {"alloc", "free", "dealloc", "realloc", "realloc_null", "realloc_zero", "free_null", "get_size", "verify", "give", "take", "used_pages", "churn"};
-static const int NH = 48; // handle slots
+enum { OP_ALLOC = 0, OP_FREE, OP_DEALLOC, OP_REALLOC, OP_REALLOC_NULL, OP_REALLOC_ZERO, OP_FREE_NULL, OP_GETSIZE, OP_VERIFY, OP_GIVE, OP_TAKE, OP_PAGES, OP_CHURN, OP_BULK, OP_N };
+static const char *op_names[OP_N] = {"alloc", "free", "dealloc", "realloc", "realloc_null", "realloc_zero", "free_null", "get_size", "verify", "give", "take", "used_pages", "churn", "bulk"};
+static const int NH = 48;      // handle slots addressed by plan ops
+static const int NBULK = 6144; // extra slots used by the bulk op (fills whole slabs)
 
 static int P_maps, P_unmaps, P_slab_first, P_slab_additional, P_large, P_realloc_inplace, P_realloc_moved, P_realloc_map, P_xfree, P_handover, P_take_fail, P_contended_construct, P_remote_free_into_head,
-	P_relink_full, P_mapfail_injected, P_mapfail_while_other_holds, P_skipped, P_poison_redundant, P_unpoison_redundant, P_churn_iters, P_arena_exhausted, P_lock_contention, P_recovered, P_pages_sampled, P_unaligned_slack;
+	P_relink_full, P_mapfail_injected, P_mapfail_while_other_holds, P_skipped, P_poison_redundant, P_unpoison_redundant, P_churn_iters, P_arena_exhausted, P_lock_contention, P_recovered, P_pages_sampled, P_unaligned_slack, P_bulk_blocks, P_slab_filled, P_long_churn, P_granule_runs;
 
 struct Region { uint64_t base, len; int kind; /*0 slab,1 large*/ int64_t pages; int by_task, by_op; uint64_t cls; bool counted; };
 struct Block { char *ptr = nullptr; size_t req = 0, reported = 0; uint64_t pat = 0; int owner = 0; bool live = false, offered = false, inflight = false; VC chan; };
@@ -32,7 +33,7 @@ struct SlabEngine : Engine {
 	uint8_t *pshadow = nullptr; // 1 = poisoned
 	std::vector<Region> regions;       // mapped now, sorted by base
 	std::vector<Region> unmapped_hist; // for double-unmap diagnosis
-	Block blk[NH];
+	std::vector<Block> blk = std::vector<Block>(NH + NBULK);
 	std::map<uint64_t, int> live_by_addr; // offset of ptr -> handle
 	uint64_t policy_base = 0, policy_top = 0;
 	std::string profile; bool single = true, faultfree = true;
@@ -57,7 +58,7 @@ struct SlabEngine : Engine {
 		P_remote_free_into_head = probe_id("free_into_slab_another_task_allocates_from"); P_relink_full = probe_id("full_slab_relinked_by_free"); P_mapfail_injected = probe_id("map_failures_injected");
 		P_mapfail_while_other_holds = probe_id("map_failure_while_other_task_holds_a_pool_lock"); P_skipped = probe_id("ops_skipped_precondition"); P_poison_redundant = probe_id("kasan_strict:poison_of_poisoned_byte");
 		P_unpoison_redundant = probe_id("kasan_strict:unpoison_of_unpoisoned_byte"); P_churn_iters = probe_id("churn_iterations"); P_arena_exhausted = probe_id("arena_exhausted"); P_lock_contention = probe_id("alloc_or_free_overlapping_another_task's");
-		P_recovered = probe_id("retry_after_map_failure_succeeded"); P_pages_sampled = probe_id("used_pages_sampled"); P_unaligned_slack = probe_id("unaligned_map_nonzero_residue");
+		P_recovered = probe_id("retry_after_map_failure_succeeded"); P_pages_sampled = probe_id("used_pages_sampled"); P_unaligned_slack = probe_id("unaligned_map_nonzero_residue"); P_bulk_blocks = probe_id("bulk_blocks_allocated"); P_slab_filled = probe_id("slab_filled_completely(second_slab_of_class_mapped_in_bulk)"); P_long_churn = probe_id("long_churn_over_65536_allocations"); P_granule_runs = probe_id("runs_with_8_byte_granule_poison_shadow");
 	}
 	const char *name() override { return "simslab"; }
 	const char *op_name(int k) override { return k >= 0 && k < OP_N ? op_names[k] : "?"; }
@@ -160,7 +161,8 @@ struct SlabEngine : Engine {
 				if (prof == "C02") { w_realloc = 28; w_alloc = 26; w_churn = p.ntasks == 1 ? 6 : 0; }
 				if (prof == "C03") { w_pages = 6; }
 				if (p.ntasks > 1) { w_give = 7; w_take = 7; w_pages = 0; }
-				int tot = w_alloc + w_free + w_dealloc + w_realloc + w_rn + w_rz + w_fn + w_gs + w_ver + w_give + w_take + w_pages + w_churn;
+				int w_bulk = (prof == "C05") ? 1 : 3;
+				int tot = w_alloc + w_free + w_dealloc + w_realloc + w_rn + w_rz + w_fn + w_gs + w_ver + w_give + w_take + w_pages + w_churn + w_bulk;
 				r = (int)rng.below(tot);
 				auto pick = [&](int w) { if (r < w) return true; r -= w; return false; };
 				if (pick(w_alloc)) { o.kind = OP_ALLOC; o.a[1] = (int64_t)gen_size(rng, P, focus, allow_large); }
@@ -175,13 +177,26 @@ struct SlabEngine : Engine {
 				else if (pick(w_give)) o.kind = OP_GIVE;
 				else if (pick(w_take)) { o.kind = OP_TAKE; o.a[0] = (int)rng.below(std::min(NH, nh * p.ntasks)); }
 				else if (pick(w_pages)) o.kind = OP_PAGES;
-				else { o.kind = OP_CHURN; o.a[1] = (int64_t)gen_size(rng, P, focus, false); o.a[2] = tier ? 50 + rng.below(3000) : 10 + rng.below(300); o.a[3] = 1 + rng.below(6); }
+				else if (pick(w_bulk)) {
+					// fill whole slabs of one class: count is chosen around the number of objects that fit in one or two slabs
+					o.kind = OP_BULK;
+					int ci = (int)rng.below(P.num_buckets); if (big_slabs && ci < 4) ci = 4 + (int)rng.below(P.num_buckets - 4);
+					size_t cs = class_size(ci); size_t per = P.slabsize / cs;
+					size_t cnt = per * (1 + rng.below(2)) + rng.below(8) - (rng.chance(1, 2) ? 4 : 0);
+					if (cnt < 3) cnt = 3; if (cnt > (size_t)(tier ? 4000 : 1100)) cnt = tier ? 4000 : 1100;
+					if (p.ntasks > 1 && cnt > 300) cnt = 300;
+					o.a[1] = (int64_t)(cs - rng.below(cs / 2 + 1)); if (o.a[1] < 1) o.a[1] = 1;
+					o.a[2] = (int64_t)cnt; o.a[3] = rng.below(4);
+				}
+				else { o.kind = OP_CHURN; o.a[1] = (int64_t)gen_size(rng, P, focus, false); o.a[2] = tier ? 50 + rng.below(3000) : 10 + rng.below(300); o.a[3] = 1 + rng.below(6);
+					if (rng.chance(1, tier ? 40 : 150)) { o.a[2] = 66000 + rng.below(3000); o.a[3] = 1 + rng.below(2); o.a[1] = (int64_t)class_size((int)rng.below(3)); } } // a counter that only wraps after 2^16 allocations
 				if (!P.aligned || rng.chance(1, 3)) o.place = (uint32_t)rng.next() | 1;
 				if ((prof == "C04" && rng.chance(1, 12)) || (prof != "C04" && prof != "C02" && rng.chance(1, 60))) o.mapfail = 1u << rng.below(2);
 				p.ops.push_back(o);
 			}
 			hbase += nh;
 		}
+		if (P.poison && rng.chance(1, 2)) p.knobs["granule"] = 1; // KASAN-like policy: poison shadow with 8-byte granules
 		pick_strategy(rng, p, mtx != MT_SIM && prof == "C05");
 	}
 
@@ -290,11 +305,19 @@ struct SlabEngine : Engine {
 		Region *r = find_region(o);
 		if (!r || o + n > r->base + r->len) violation("pool_touches_unmapped_byte", "poison/unpoison of +0x%llx..+%zu which is not inside one mapped region", (unsigned long long)o, n);
 		logev(0x4010 + kind, o, n);
+		if (granule) {
+			// a shadow with 8-byte granules (KASAN): a granule is either invalid or valid up to some byte, so poisoning from
+			// the middle of a granule invalidates the whole granule, and both calls extend to the end of the last granule
+			uint64_t e = (o + n + 7) & ~7ull; if (e > r->base + r->len) e = r->base + r->len;
+			if (kind == 0) { uint64_t s = o & ~7ull; memset(pshadow + s, 1, e - s); }
+			else { memset(pshadow + o, 0, n); if (e > o + n) memset(pshadow + o + n, 1, e - (o + n)); }
+			return;
+		}
 		if (kind == 0) { if (memchr(pshadow + o, 1, n)) probe(P_poison_redundant); memset(pshadow + o, 1, n); }
 		else { if (kind == 1 && memchr(pshadow + o, 0, n)) probe(P_unpoison_redundant); memset(pshadow + o, 0, n); }
 	}
 
-	bool fair_phase_retry = false;
+	bool fair_phase_retry = false, granule = false;
 
 	void on_access(int task, const void *addr, size_t n, bool write, bool atomic) override {
 		uint64_t o = off(addr);
@@ -335,6 +358,7 @@ struct SlabEngine : Engine {
 		pc = resolve_pc(p); mt = p.cfg % MT_N; pi = policy_info[pc];
 		api = mt == MT_SIM ? &slab_api_sim : mt == MT_TICKET ? &slab_api_ticket : &slab_api_simple;
 		profile = p.profile; single = p.ntasks == 1; cur_plan = &p; calibrating = false;
+		granule = p.knob("granule", 0) != 0 && policy_info[resolve_pc(p)].poison; if (granule) probe(P_granule_runs);
 		faultfree = true; for (auto &o : p.ops) if (o.mapfail) faultfree = false;
 		max_small = class_size(pi.num_buckets - 1);
 		if (!pshadow) { pshadow = (uint8_t *)mmap(nullptr, arena_size, PROT_READ | PROT_WRITE, MAP_PRIVATE | MAP_ANONYMOUS | MAP_NORESERVE, -1, 0); }
@@ -410,7 +434,7 @@ struct SlabEngine : Engine {
 		size_t w = written_size[h];
 		if (w <= 192) rd(0, w); else { rd(0, 64); rd(w / 2 - 16, 32); rd(w - 64, 64); }
 	}
-	size_t written_size[NH];
+	std::vector<size_t> written_size = std::vector<size_t>(NH + NBULK);
 
 	uint64_t cls_of(size_t reported) { return reported <= max_small ? reported : 0; }
 
@@ -686,10 +710,41 @@ struct SlabEngine : Engine {
 			if (!single) return;
 			pages_pre(me); cur[me].mapped_bases.clear(); cur[me].unmapped.clear(); pages_post(me, "no-op");
 			break; }
+		case OP_BULK: {
+			// many blocks of one class at once: slabs fill completely, several slabs per class, head/partial-tree changes
+			size_t n = (size_t)op.a[1]; int64_t cnt = op.a[2]; int pat = (int)op.a[3];
+			if (cnt > NBULK) cnt = NBULK;
+			std::vector<int> hs;
+			int ntk = plan().ntasks, share = NBULK / ntk, lo = NH + (me - 1) * share; // bulk slots are private to the task
+			for (int i = lo; i < lo + share && (int64_t)hs.size() < cnt; i++) if (!blk[i].live && !blk[i].offered) hs.push_back(i);
+			uint64_t maps0 = total_maps; bool filled = false;
+			std::vector<int> got;
+			for (int x : hs) {
+				Op a = op; a.kind = OP_ALLOC; a.mapfail = 0;
+				uint64_t before = total_maps;
+				if (!do_alloc(me, a, x, n, false)) break;
+				got.push_back(x); probe(P_bulk_blocks);
+				if (total_maps != before && total_maps - maps0 >= 2 && !filled) { filled = true; probe(P_slab_filled); }
+				progress();
+			}
+			auto rel = [&](int x, int mode) { Op a = op; a.mapfail = 0; do_free(me, a, x, mode, blk[x].req); progress(); };
+			if (pat == 0) for (int x : got) rel(x, 0);
+			else if (pat == 1) for (size_t i = got.size(); i-- > 0;) rel(got[i], 1);
+			else if (pat == 2) { for (size_t i = 0; i < got.size(); i += 2) rel(got[i], 0); for (size_t i = 1; i < got.size(); i += 2) rel(got[i], 0); }
+			else { // free most, keep a few alive until the end of the run; then refill: freed memory must be reused
+				size_t keep = got.size() > 6 ? 3 : 0;
+				for (size_t i = keep; i < got.size(); i++) rel(got[i], 0);
+				uint64_t maps1 = total_maps;
+				for (size_t i = keep; i < got.size(); i++) { Op a = op; a.kind = OP_ALLOC; a.mapfail = 0; if (!do_alloc(me, a, got[i], n, false)) break; progress(); }
+				if (single && faultfree && total_maps != maps1) violation("footprint", "refilling %zu just-freed blocks of %zu bytes mapped %llu new region(s) although the freed memory was available", got.size() - keep, n, (unsigned long long)(total_maps - maps1));
+				for (size_t i = keep; i < got.size(); i++) if (blk[got[i]].live) rel(got[i], 0);
+			}
+			break; }
 		case OP_CHURN: {
 			if (!single || !faultfree) { probe(P_skipped); return; }
 			// constant live count alloc/free cycles in one class must not map anything new after warm-up
 			size_t n = (size_t)op.a[1]; int live = (int)op.a[3]; int64_t iters = op.a[2];
+			if (iters > 65536) probe(P_long_churn);
 			std::vector<int> hs;
 			for (int i = 0; i < NH && (int)hs.size() < live; i++) if (!blk[i].live && !blk[i].offered) hs.push_back(i);
 			if (hs.empty()) { probe(P_skipped); return; }
@@ -714,7 +769,7 @@ struct SlabEngine : Engine {
 	void finish() override {
 		// quiescent: every block still live must be intact and unpoisoned; then free everything
 		int me = 0;
-		for (int h = 0; h < NH; h++) if (blk[h].live) {
+		for (int h = 0; h < NH + NBULK; h++) if (blk[h].live) {
 			Block &b = blk[h];
 			b.owner = 0; b.offered = false;
 			if (pi.poison && b.req && memchr(pshadow + off(b.ptr), 1, b.req)) violation("not_unpoisoned", "at the end requested bytes of live block #%d are poisoned", h);
@@ -722,7 +777,7 @@ struct SlabEngine : Engine {
 			if (api->get_size(pc, pool, b.ptr) != b.reported) violation("size_changed", "block #%d reported size %zu at allocation and %zu at the end", h, b.reported, api->get_size(pc, pool, b.ptr));
 		}
 		bool sgl = single; single = true; // teardown is sequential: page accounting can be observed again
-		for (int h = 0; h < NH; h++) if (blk[h].live) {
+		for (int h = 0; h < NH + NBULK; h++) if (blk[h].live) {
 			Op dummy; dummy.kind = OP_FREE;
 			cur[0] = Cur();
 			// page bookkeeping for regions mapped in multi-task runs is unknown: only check direction
@@ -780,6 +835,7 @@ struct SlabEngine : Engine {
 			size_t c = 8; while (c < n) c <<= 1;
 			for (size_t cand : {c, c / 2 + 1, (size_t)1}) if (cand != n && cand >= 1) { Op x = o; x.a[1] = (int64_t)cand; v.push_back(x); }
 		}
+		if (o.kind == OP_BULK) { if (o.a[2] > 8) { Op x = o; x.a[2] = o.a[2] / 2; v.push_back(x); Op y = o; y.a[2] = o.a[2] - 1; v.push_back(y); } if (o.a[3]) { Op x = o; x.a[3] = 0; v.push_back(x); } }
 		if (o.kind == OP_CHURN) { if (o.a[2] > 4) { Op x = o; x.a[2] = o.a[2] / 4; v.push_back(x); } if (o.a[3] > 1) { Op x = o; x.a[3] = 1; v.push_back(x); } }
 		if (o.kind == OP_REALLOC_NULL) { Op x = o; x.kind = OP_ALLOC; v.push_back(x); }
 		if (o.kind == OP_DEALLOC || o.kind == OP_REALLOC_ZERO) { Op x = o; x.kind = OP_FREE; v.push_back(x); }
